@@ -308,6 +308,23 @@ where
     }
 }
 
+#[cfg(feature = "verif-hooks")]
+impl<T, P, B> Connector<T, P, B>
+where
+    T: Transport,
+    P: Protocol<T::IO, B>,
+{
+    /// Read-only name of the connector's stage (verification seam).
+    pub(in crate::client) fn verif_stage(&self) -> &'static str {
+        match &self.state {
+            ConnectorState::PollReadyTransport { .. } => "ready-transport",
+            ConnectorState::Connect { .. } => "connect",
+            ConnectorState::PollReadyHandshake { .. } => "ready-handshake",
+            ConnectorState::Handshake { .. } => "handshake",
+        }
+    }
+}
+
 /// A future that resolves to a connection.
 #[pin_project]
 pub struct ConnectorFuture<T, P, B>
